@@ -149,6 +149,19 @@ func c10(r *core.Run) []*core.Violation {
 		}
 		cfg.Stakes[cfg.NVals-1] = math.NewIntFromBigInt(rest)
 	}
+	if len(cfg.Chains) == 2 && t.Draw(2) == 1 {
+		// one validator has an account on the first chain only: it belongs to the snapshot while the second chain is
+		// not yet active, but not to the validator set the second chain's bridge is deployed with
+		total := math.ZeroInt()
+		for _, s := range cfg.Stakes {
+			total = total.Add(s)
+		}
+		vi := 1 + t.Intn(cfg.NVals-1)
+		if total.Sub(cfg.Stakes[vi]).MulRaw(4).GT(total.MulRaw(3)) { // the others keep more than 3/4: the deployment can go ahead
+			cfg.NoAcctOn = map[int]map[string]bool{vi: {"bnb-main": true}}
+			r.Stats.Probe("validator_without_account_on_second_chain")
+		}
+	}
 	r.Profile = fmt.Sprintf("layout-%d", layout)
 	var viols []*core.Violation
 	bad := func(class string, h int64, facts map[string]string, format string, args ...any) {
